@@ -228,6 +228,7 @@ func init() {
 }
 
 func genC19(tier string, r *rng) {
+	genRpmGuard(tier, r)
 	n := 300
 	if tier == "thorough" {
 		n = 8000
